@@ -83,7 +83,8 @@ def h1(cx):
         fn = F.impl_fn(im, 'poll')
         g = cx.graph(fn['key'], forward=True)      # (a `take_args(slot)` helper is the take() it wraps)
         label = cx.label(fn)
-        calls = [x for x in g.nodes if x['kind'] == 'call' and x['name'] == '<fnptr>']   # (also inside a closure given to Poll::map)
+        from ..core import own_fnptr_call
+        calls = [x for x in g.nodes if own_fnptr_call(x)]   # (also inside a closure given to Poll::map)
         ok = len(calls) == 1
         msg = 'task function runs on arguments taken out of the Option slot'
         for x in calls:
